@@ -32,6 +32,10 @@ const (
 	kCall
 	kTry
 	kRtErr
+	kLoopIn    // for k, v in [..] { } — keeps an iterator on the value stack
+	kRethrow   // throw <catch variable> inside a catch block with an identifier
+	kThrowObj  // throw error("o<k>")
+	kCallInLit // log("r", [7, 8, fN()][2]): a call while a literal is half built
 )
 
 type c03Node struct {
@@ -55,6 +59,9 @@ type c03Gen struct {
 	roles    map[int]string // log constant → role of the statement
 	maxDepth int
 	feat     map[string]bool
+	// catch identifiers in scope (innermost last) and the counter that numbers them
+	catchVars []int
+	nCatch    int
 }
 
 func (g *c03Gen) logNode(role string) *c03Node {
@@ -69,15 +76,18 @@ func (g *c03Gen) stmts(n int, role string, depth int, inLoop bool, fn int) []*c0
 	var out []*c03Node
 	for i := 0; i < n && g.budget > 0; i++ {
 		g.budget--
-		w := []int{5, 4, 2, 2, 1, 1, 2, 2, 2, 5, 1}
+		w := []int{5, 4, 2, 2, 1, 1, 2, 2, 2, 5, 1, 2, 1, 1, 1}
 		if !inLoop {
 			w[kBreak], w[kContinue] = 0, 0
 		}
 		if fn >= g.nFuncs-1 {
-			w[kCall] = 0
+			w[kCall], w[kCallInLit] = 0, 0
 		}
 		if depth >= g.maxDepth {
-			w[kTry], w[kLoop], w[kIf] = 0, 0, 0
+			w[kTry], w[kLoop], w[kIf], w[kLoopIn] = 0, 0, 0, 0
+		}
+		if len(g.catchVars) == 0 {
+			w[kRethrow] = 0
 		}
 		switch c03Kind(g.t.Pick(w...)) {
 		case kLog:
@@ -114,6 +124,18 @@ func (g *c03Gen) stmts(n int, role string, depth int, inLoop bool, fn int) []*c0
 		case kRtErr:
 			out = append(out, &c03Node{kind: kRtErr, k: 1 + g.t.Draw(5)})
 			return out
+		case kLoopIn:
+			nd := &c03Node{kind: kLoopIn, k: 1 + g.t.Draw(3)}
+			nd.body = g.stmts(1+g.t.Draw(3), role, depth+1, true, fn)
+			out = append(out, nd)
+		case kRethrow:
+			out = append(out, &c03Node{kind: kRethrow, k: g.catchVars[len(g.catchVars)-1]})
+			return out
+		case kThrowObj:
+			out = append(out, &c03Node{kind: kThrowObj, k: g.t.Draw(50)})
+			return out
+		case kCallInLit:
+			out = append(out, &c03Node{kind: kCallInLit, k: fn + 1 + g.t.Draw(g.nFuncs-fn-1)})
 		}
 	}
 	return out
@@ -132,7 +154,15 @@ func (g *c03Gen) try(depth int, inLoop bool, fn int) *c03Node {
 	nd.catchVar = g.t.Bool(1, 2)
 	nd.body = g.stmts(1+g.t.Draw(3), "body", depth+1, inLoop, fn)
 	if nd.hasCatch {
+		if nd.catchVar {
+			g.nCatch++
+			nd.k = g.nCatch
+			g.catchVars = append(g.catchVars, nd.k)
+		}
 		nd.catch = g.stmts(g.t.Draw(3), "catch", depth+1, inLoop, fn)
+		if nd.catchVar {
+			g.catchVars = g.catchVars[:len(g.catchVars)-1]
+		}
 	}
 	if nd.hasFinally {
 		nd.finally = g.stmts(1+g.t.Draw(2), "finally", depth+1, inLoop, fn)
@@ -210,13 +240,24 @@ func (r *c03Render) node(n *c03Node, lvl int) {
 		fmt.Fprintf(&r.sb, "%slog(\"r\", f%d())\n", in, n.k)
 	case kRtErr:
 		fmt.Fprintf(&r.sb, "%slog([][%d])\n", in, n.k)
+	case kLoopIn:
+		r.loop++
+		lit := []string{"", "[7]", "[7, 8]", "[7, 8, 9]"}[n.k]
+		fmt.Fprintf(&r.sb, "%sfor k%d, v%d in %s {\n", in, r.loop, r.loop, lit)
+		r.block(n.body, lvl+1)
+		fmt.Fprintf(&r.sb, "%s}\n", in)
+	case kRethrow:
+		fmt.Fprintf(&r.sb, "%sthrow e%d\n", in, n.k)
+	case kThrowObj:
+		fmt.Fprintf(&r.sb, "%sthrow error(\"o%d\")\n", in, n.k)
+	case kCallInLit:
+		fmt.Fprintf(&r.sb, "%slog(\"r\", [7, 8, f%d()][2])\n", in, n.k)
 	case kTry:
 		fmt.Fprintf(&r.sb, "%stry {\n", in)
 		r.block(n.body, lvl+1)
 		if n.hasCatch {
 			if n.catchVar {
-				r.ev++
-				fmt.Fprintf(&r.sb, "%s} catch e%d {\n%s\tlog(\"c\", e%d.Name, e%d.Message)\n", in, r.ev, in, r.ev, r.ev)
+				fmt.Fprintf(&r.sb, "%s} catch e%d {\n%s\tlog(\"c\", e%d.Name, e%d.Message)\n", in, n.k, in, n.k, n.k)
 			} else {
 				fmt.Fprintf(&r.sb, "%s} catch {\n", in)
 			}
@@ -259,6 +300,7 @@ type c03Model struct {
 	chooseN map[int]int
 	fns     [][]*c03Node
 	steps   int
+	caught  map[int]c03Compl // catch identifier → error it holds
 }
 
 func (m *c03Model) block(ns []*c03Node) c03Compl {
@@ -321,6 +363,31 @@ func (m *c03Model) node(n *c03Node) c03Compl {
 		return c03Compl{kind: 4, name: "", msg: fmt.Sprintf("t%d", n.k)}
 	case kRtErr:
 		return c03Compl{kind: 4, name: "IndexOutOfBoundsError", msg: fmt.Sprint(n.k)}
+	case kLoopIn:
+		for i := 0; i < n.k; i++ {
+			c := m.block(n.body)
+			switch c.kind {
+			case 2:
+				return c03Compl{}
+			case 1, 4:
+				return c
+			}
+		}
+	case kRethrow:
+		e := m.caught[n.k]
+		return c03Compl{kind: 4, name: e.name, msg: e.msg}
+	case kThrowObj:
+		return c03Compl{kind: 4, name: "error", msg: fmt.Sprintf("o%d", n.k)}
+	case kCallInLit:
+		c := m.block(m.fns[n.k])
+		switch c.kind {
+		case 4:
+			return c
+		case 1:
+			m.hist = append(m.hist, fmt.Sprintf("s:\"r\" i:%d", c.val))
+		default:
+			m.hist = append(m.hist, "s:\"r\" undefined")
+		}
 	case kCall:
 		c := m.block(m.fns[n.k])
 		switch c.kind {
@@ -336,6 +403,7 @@ func (m *c03Model) node(n *c03Node) c03Compl {
 		if c.kind == 4 && n.hasCatch {
 			if n.catchVar {
 				m.hist = append(m.hist, fmt.Sprintf("s:\"c\" s:%q s:%q", c.name, c.msg))
+				m.caught[n.k] = c
 			}
 			c = m.block(n.catch)
 		}
@@ -373,13 +441,14 @@ func c03Run(rc *sim.RunCtx) {
 		for j := 0; j < np; j++ {
 			fns[i] = append(fns[i], g.completedTry())
 		}
+		g.catchVars = nil
 		fns[i] = append(fns[i], g.stmts(1+t.Draw(4), "plain", 0, false, i)...)
 	}
 	ws := sim.DrawWorldSpec(t, "w", 4, 3, 3, []sim.FaultKind{sim.FGoErr, sim.FUgoErr}, 3, 0)
 	src := c03Script(fns)
 
 	// reference model
-	m := &c03Model{spec: ws, occ: map[int]int{}, chooseN: map[int]int{}, fns: fns}
+	m := &c03Model{spec: ws, occ: map[int]int{}, chooseN: map[int]int{}, fns: fns, caught: map[int]c03Compl{}}
 	mc := m.block(fns[0])
 	var want sim.Outcome
 	switch mc.kind {
@@ -511,8 +580,8 @@ func skeleton(fns [][]*c03Node) string {
 	var walk func(ns []*c03Node)
 	walk = func(ns []*c03Node) {
 		for _, n := range ns {
-			sb.WriteString([]string{"L", "O", "I", "F", "B", "C", "R", "T", "K", "Y", "X"}[n.kind])
-			if n.kind == kTry || n.kind == kIf || n.kind == kLoop {
+			sb.WriteString([]string{"L", "O", "I", "F", "B", "C", "R", "T", "K", "Y", "X", "N", "W", "E", "A"}[n.kind])
+			if n.kind == kTry || n.kind == kIf || n.kind == kLoop || n.kind == kLoopIn {
 				sb.WriteByte('{')
 				walk(n.body)
 				if n.els != nil {
@@ -542,7 +611,7 @@ func init() {
 	sim.Register(&sim.Engine{
 		ID:    "C03",
 		Level: "exploration",
-		Rule: "each run draws a try/catch/finally nest (≤4 functions, ≤40 statements, depth ≤4, every function starting with 0–3 already completed try statements), a fault table (≤3 host-call failures keyed by (op id, occurrence)) and a host choice table; " +
+		Rule: "each run draws a try/catch/finally nest (≤4 functions, ≤40 statements, depth ≤4; C-style and for-in loops, break/continue/return/throw of strings and error objects, re-throw of the catch variable, runtime errors, calls inside half-built literals; every function starting with 0–3 already completed try statements), a fault table (≤3 host-call failures keyed by (op id, occurrence)) and a host choice table; " +
 			"the VM's log history and outcome must equal a reference interpreter with ECMAScript completion records reading the same tables. Non-trivial = the nest has a try statement and some abrupt exit (fired host fault, return, break, continue, throw, runtime error); " +
 			"distinct = distinct (nest skeleton, fired-fault vector).",
 		Assumptions: []string{
